@@ -3,14 +3,20 @@
 (* are replayed on real objects (every transition is printed with its step number), *)
 (* and exhaustively with small constants for the invariants.                        *)
 EXTENDS RVSystem, Json
-CONSTANTS NM, NP, MaxSlots, MaxLinks, MaxStep, Emit, Lists
+CONSTANTS NM, NP, MaxSlots, MaxLinks, MaxStep, Emit, Lists,
+          Focus     \* "all", or the name of an action subset on which simulated behaviours concentrate
 VARIABLES w, step, hist        \* hist: the requests made so far (only when Emit), printed at the end of a simulated behaviour
 Init == w = InitW(NM, NP) /\ step = 0 /\ hist = <<>>
-Do(act, args, r) == /\ step < MaxStep /\ \E q \in r.posts : w' = q /\ step' = step + 1
+FocusActs == [multictl |-> {"attach", "connect", "saveload", "set_map", "feed", "attach_none"},
+              patterns |-> {"attach", "attach_end", "attach_none", "attach_pattern", "saveload", "bulk_edit", "set_note_mod", "get_note_mod"}]
+Allowed(act) == Focus = "all" \/ act \in FocusActs[Focus]
+Do(act, args, r) == /\ Allowed(act) /\ step < MaxStep /\ \E q \in r.posts : w' = q /\ step' = step + 1
                     /\ hist' = IF Emit THEN Append(hist, [act |-> act, args |-> args, outcome |-> r.outcome, ret |-> r.ret, post |-> w', posts |-> SetToSeq(r.posts)]) ELSE hist
 (* evaluated on the states of the simulated behaviour: prints the complete history once the behaviour is MaxStep long *)
 EmitHist == step < MaxStep \/ ~Emit \/ PrintT(ToJson([k |-> "H", hist |-> hist]))
 Mods == 1..NM
+MC == NM                    \* the MultiCtl
+Plain == Mods \ {1, 2, MC}  \* modules with a volume controller
 O(m, b) == [m |-> m, neg |-> b]
 (* operands of a request to project P: its own modules, and one module that is not its own *)
 Own(P) == {m \in Mods : Has(w.p.slots[P], m)}
@@ -18,16 +24,22 @@ Cand(P) == Own(P) \cup (IF Mods \ Own(P) = {} THEN {} ELSE {CHOOSE m \in Mods \ 
 Operands(P) == {<<O(m, b)>> : m \in Cand(P), b \in BOOLEAN}
                \cup (IF Lists THEN {<<O(a, FALSE), O(b, c)>> : a \in Own(P), b \in Cand(P), c \in BOOLEAN} ELSE {})
 Next ==
-  \/ \E P \in 1..2, m \in Mods : Do("attach", <<P, m>>, Lift(w, Attach(w.p, P, m)))
+  \* (focus "multictl": one project, the MultiCtl as the source of every request - the same actions, fewer choices)
+  \/ \E P \in 1..2, m \in Mods : (Focus = "multictl" => P = 1 /\ ~Has(w.p.slots[1], m)) /\ Do("attach", <<P, m>>, Lift(w, Attach(w.p, P, m)))
   \/ \E P \in 1..2, m \in Mods \ {1, 2} : Do("attach_end", <<P, m>>, Lift(w, AttachEnd(w.p, P, m)))
-  \/ \E P \in 1..2 : Do("attach_none", <<P>>, Lift(w, AttachNone(w.p, P)))
+  \/ \E P \in 1..2 : (Focus = "multictl" => P = 1) /\ Do("attach_none", <<P>>, Lift(w, AttachNone(w.p, P)))
   \/ \E P \in 1..2, q \in 0..NP : Do("attach_pattern", <<P, q>>, Lift(w, AttachPattern(w.p, P, q)))
-  \/ \E P \in 1..2 : \E A \in Operands(P), B \in Operands(P) : Do("connect", <<P, A, B>>, SysConnect(w, P, A, B))
-  \/ \E P \in 1..2 : Do("saveload", <<P>>, SysSaveLoad(w, P))
-  \/ \E m \in Mods \ {1, 2}, v \in {-1, 0, 700, 1024, 1025} : Do("set_volume", <<m, v>>, SysSetVol(w, m, v))
+  \/ \E P \in 1..2 : \E A \in Operands(P), B \in Operands(P) :
+        /\ (Focus = "multictl" => P = 1 /\ Len(A) = 1 /\ A[1].m = MC /\ \A k \in 1..Len(B) : B[k].m \in Plain)
+        /\ Do("connect", <<P, A, B>>, SysConnect(w, P, A, B))
+  \/ \E P \in 1..2 : (Focus = "multictl" => P = 1) /\ Do("saveload", <<P>>, SysSaveLoad(w, P))
+  \/ \E m \in Plain, v \in {-1, 0, 700, 1024, 1025} : Do("set_volume", <<m, v>>, SysSetVol(w, m, v))
+  \/ \E i \in 1..MaxLinks, c \in {0, 1} : i <= 4 /\ Do("set_map", <<i, c>>, SysSetMap(w, i, c))
+  \* (a mapping that names controller 1 of a module without controllers - an Output, the MultiCtl itself - is outside the domain)
+  \/ \E v \in {0, 32768} : (\A x \in FeedTargets(w, MC) : x.mod \in Plain) /\ Do("feed", <<v>>, SysFeed(w, MC, v))
   \/ Do("failed_load", <<>>, SysFailedLoad(w))
   \/ \E n \in 0..(NM + 1), fail \in BOOLEAN, sparse \in BOOLEAN : Do("bulk_edit", <<1, n, fail, sparse>>, SysBulk(w, 1, n, fail, sparse))
-  \/ \E src \in Mods \ {1, 2}, dst \in Mods \ {1, 2} : src # dst /\ w.p.parent[dst] = 0 /\ Do("clone_module", <<src, dst>>, SysClone(w, src, dst))
+  \/ \E src \in Plain, dst \in Plain : src # dst /\ w.p.parent[dst] = 0 /\ Do("clone_module", <<src, dst>>, SysClone(w, src, dst))
   \* pattern 1 is a Pattern with a note cell; even pattern ids stand for PatternClone objects
   \/ \E q \in {1}, m \in Mods : Do("set_note_mod", <<q, m>>, Lift(w, SetNoteMod(w.p, q, m)))
   \/ \E q \in {1} : Do("get_note_mod", <<q>>, Lift(w, GetNoteMod(w.p, q)))
